@@ -157,7 +157,9 @@ def gen_se(rng, depth, ops, N):
     if via == "mask":
         ttf = lambda env, a=a, idx=idx: a.tt_fn(env).apply_mask(tn.tensor([idx]))
     else:
-        ttf = lambda env, a=a, idx=idx: a.tt_fn(env)[tuple(idx)]
+        # the same entry addressed with negative positions on some modes (-1 included): dense indexing semantics
+        pidx = [i - n if rng.random() < 0.5 else i for i, n in zip(idx, a.N)]
+        ttf = lambda env, a=a, pidx=pidx: a.tt_fn(env)[tuple(pidx)]
     return Node(["entry"] + a.toks + [len(idx)] + idx, ttf, lambda den, a=a, idx=idx: a.dn_fn(den)[tuple(idx)], None)
 
 
